@@ -1,14 +1,14 @@
 #!/bin/bash
-# build.sh <scratch-dir> [race] : rewrite /repo's working tree into <scratch-dir> and build the harness test binary there
+# build.sh <scratch-dir> [race|norace] [src-dir, default /repo] : rewrite /repo's working tree into <scratch-dir> and build the harness test binary there
 set -e
 export GOFLAGS=-mod=mod GOPROXY=off GOSUMDB=off GOTOOLCHAIN=local
-S="$1"; RACE="$2"
+S="$1"; RACE="$2"; SRC="${3:-/repo}"
 V=/verif
 mkdir -p "$S/src"
-"$V/bin/simprep" -src /repo -dst "$S/src" -report "$S/simprep.json"
+"$V/bin/simprep" -src "$SRC" -dst "$S/src" -report "$S/simprep.json"
 for f in "$V"/harness/*.go; do cp "$f" "$S/src/zz_$(basename "${f%.go}")_test.go"; done
-cp /repo/go.mod "$S/src/go.mod"
-cat /repo/go.sum "$V/sim/go.sum" 2>/dev/null > "$S/src/go.sum" || cp /repo/go.sum "$S/src/go.sum"
+cp "$SRC/go.mod" "$S/src/go.mod"
+cat "$SRC/go.sum" "$V/sim/go.sum" 2>/dev/null > "$S/src/go.sum" || cp "$SRC/go.sum" "$S/src/go.sum"
 cat >> "$S/src/go.mod" <<EOM
 
 require verif/sim v0.0.0
